@@ -360,7 +360,7 @@ func (a *Alpha) primParseInputs(k Kind) []inClass {
 	case KFloat:
 		out = append(out, inClass{"alt", "4.5", false}, inClass{"uncoercible", "abc", false}, inClass{"falsy", 0.0, false}, inClass{"nan", math.NaN(), false})
 	case KBool:
-		out = append(out, inClass{"alt", "on", false}, inClass{"uncoercible", "abc", false}, inClass{"falsy", false, false})
+		out = append(out, inClass{"alt", "on", false}, inClass{"uncoercible", "abc", false}, inClass{"falsy", false, false}, inClass{"a number that is neither 0 nor 1", 2, false})
 	case KTime:
 		out = append(out, inClass{"alt", "2025-06-01T00:00:00Z", false}, inClass{"uncoercible", "notatime", false}, inClass{"falsy", tZero, false})
 	}
